@@ -380,8 +380,10 @@ def oracle(item, impl):
             first = polls_node and not first_started
             if polls_node:
                 first_started = True
+            # (dep = 3: the nested value's own fetch futures are in the same count, a new future says nothing
+            # about the node)
             reload = o[5] > before[5]
-            if first or reload:
+            if dep != 3 and (first or reload):
                 if sus_polled and o[1] == 1 and not (first and reload) and o[6] < 1:
                     return ("event %d: a load started and is in flight, a child of the Suspense boundary had awaited or read the "
                             "value, but the boundary has no pending task" % j)
